@@ -59,6 +59,13 @@ func (r *RootAssertionNode) LocationOf(expr ast.Expr) token.Position {
 	return r.Pass().PosToLocation(expr.Pos())
 }
 
+// CallSiteLocationOf returns the location that identifies the given call (see
+// [analysishelper.EnhancedPass.CallSiteLocation]). A call expression rebuilt from an assertion node
+// stands for the call of the source code it was created from.
+func (r *RootAssertionNode) CallSiteLocationOf(call *ast.CallExpr) token.Position {
+	return r.Pass().CallSiteLocation(r.sourceCall(call))
+}
+
 // HasContract returns if the given function has any contracts.
 func (r *RootAssertionNode) HasContract(funcObj *types.Func) bool {
 	_, ok := r.functionContext.funcContracts[funcObj]
